@@ -23,6 +23,20 @@ Fixpoint pairs (l : list nat) : list (nat * nat) :=
 Definition rows_eqb : list row -> list row -> bool := list_eqb row_eqb.
 Definition dropped (rem : list row) : nat := fold_right (fun r s => snd r + s) 0 rem.
 
+(* C01, the predicate every simplifier's output is judged with: 0 = returned a well-formed (reduced, removed) with
+   every loop activation within `bound` iterations and at most `acts` activations; k = conjunct k fails.
+   o = None: the implementation raised / did not return.  iters = iterations of each while-loop activation. *)
+Definition C01_code (n bound acts : nat) (o : option (list nat * list row)) (iters : list nat) : nat :=
+  match o with
+  | None => 1
+  | Some (red, rem) =>
+      if negb (WFb n red) then 2
+      else if negb (rows_eqb rem (rows red)) then 3
+      else if negb (length red + dropped rem =? n) then 4
+      else if negb ((length iters <=? acts) && forallb (fun k => k <=? bound) iters) then 5
+      else 0
+  end.
+
 Section Rdp.
   Context {N : Num}.
   (* oracles: functions of the sub-array points[l:r] only, keyed by absolute (l, r) *)
@@ -86,18 +100,6 @@ Section Rdp.
         else none_inside
     end.
 
-  (* C01 for rdp.rdp: 0 = returned a well-formed (reduced, removed) within the step bound; k = conjunct k fails.
-     `iters` = number of loop iterations observed *)
-  Definition C01_rdp_code (n : nat) (o : option (list nat * list row * nat)) : nat :=
-    match o with
-    | None => 1
-    | Some (red, rem, iters) =>
-        if negb (WFb n red) then 2
-        else if negb (rows_eqb rem (rows red)) then 3
-        else if negb (length red + dropped rem =? n) then 4
-        else if negb (iters <=? 2 * n - 3) then 5
-        else 0
-    end.
   (* C04: 0 = holds; k = conjunct k fails *)
   Definition C04_code (n : nat) (o : option (list nat * list row)) : nat :=
     match o with
